@@ -46,7 +46,9 @@ sys.stdin.read()
 
 
 def scenarios(tier, seed):
-    sc = c05.scenarios("quick")[:2]
+    q_ = c05.scenarios("quick")
+    # ... and the scenario whose move target lies on a second device (the move is then a copy and a removal)
+    sc = q_[:2] + [s_ for s_ in q_[2:] if s_.get("dev2")]
     # a report made with -S whose RETAINED member is a symbolic link (it sorts first; its target lies outside the
     # scanned root): the droppable members are ordinary files and can be locked like any other
     w = World()
@@ -88,7 +90,7 @@ def twin(sc, op):
 
 def gen_cases(tier, seed):
     for sc in scenarios(tier, seed):
-        for op in ops.OPS:
+        for op in sc.get("ops") or ops.OPS:
             drop, n_clean = twin(sc, op)
             subsets = [(d,) for d in drop] + list(itertools.combinations(drop, 2))
             if tier == "quick":
